@@ -1320,7 +1320,7 @@ PROPERTIES = {
             "write_all and nothing else; (d) the per-file operation runs only after open and decode succeeded and receives the formatter's output for the decoded text; "
             "(e) check verdict = (decoded input != formatter output), no Result dropped in file_formatter.rs, errors reach the handler, handler sets the exit flag, "
             "no process exit after argument parsing; (f) files and stdout paths hand the decoded file's encoding+BOM to the same writer. "
-            "Not decided: that the OS honours the calls; glob/directory expansion. Added in round 6: (h) the text that is formatted and the malformed verdict come from one encoding_rs decode call and the verdict leads to the error (shared with C17.a/b).", []),
+            "Not decided: that the OS honours the calls; glob/directory expansion. Added in round 6: (h) the text that is formatted and the malformed verdict come from one encoding_rs decode call and the verdict leads to the error (shared with C17.a/b). Added in round 7: (i) no partial write, stdout only through a lock; (j) a body that decodes stdin reports success only after Formatter::format.", []),
     "C17": (check_c17,
             "Structural clauses of C17: (a) decode_file records {encoding sniffed from the BOM, else the configured one} and decodes the post-BOM slice with exactly "
             "that encoding via decode_without_bom_handling; (b) every encoding_rs call returning a had-errors flag has the flag tested and its true edge reaches no "
@@ -1332,5 +1332,5 @@ PROPERTIES = {
             "(b) no pipeline component type registered in make_formatter, no implementor of a pipeline trait, and none of Formatter/FileFormatter/settings types contains "
             "interior mutability (deep UnsafeCell walk); Formatter::format takes &self; (c) the per-worker input buffer is cleared on every path before decode_file "
             "appends to it; (d) the parallel closure captures shared references only, the pipeline is into_par_iter -> map_init(Vec::new) -> for_each(handler) with no "
-            "early exit; (e) the fn-pointer cache holds only the sibling scanning routines. Not decided: rayon's own correctness. Added in round 6: (f) the walk filter is a decision table (dropped only for `no recognised extension` or `is a directory`); (h) an entry is handed to the workers only with evidence that it is not a directory.", []),
+            "early exit; (e) the fn-pointer cache holds only the sibling scanning routines. Not decided: rayon's own correctness. Added in round 6: (f) the walk filter is a decision table (dropped only for `no recognised extension` or `is a directory`); (h) an entry is handed to the workers only with evidence that it is not a directory. Added in round 7: (i) the block a worker prints reaches stdout in one piece (shared with C16.i).", []),
 }
